@@ -150,11 +150,43 @@ impl Pool {
                 r
             }
             Isolation::Shared => {
+                // a worker that reported a scheduler-decided abort (deadlock, step
+                // limit) has exited after its RESULT line: replace it first
+                if let Some(w) = self.shared.as_mut() {
+                    if !matches!(w.child.try_wait(), Ok(None)) {
+                        if let Some(w) = self.shared.take() {
+                            w.kill();
+                        }
+                    }
+                }
                 if self.shared.is_none() {
                     self.shared = Some(spawn_worker(self.core, &[], false));
                 }
-                let r = self.shared.as_mut().unwrap().run(case, timeout);
-                if r.is_err() {
+                let mut r = self.shared.as_mut().unwrap().run(case, timeout);
+                if matches!(&r, Err(e) if e.contains("write failed")) {
+                    // lost the race with an exiting worker: the case was never started
+                    if let Some(w) = self.shared.take() {
+                        w.kill();
+                    }
+                    self.shared = Some(spawn_worker(self.core, &[], false));
+                    r = self.shared.as_mut().unwrap().run(case, timeout);
+                }
+                if matches!(&r, Err(e) if e.contains("exit code Some(3)")) {
+                    // the worker was still exiting after the previous case's scheduler
+                    // abort when this case was written to it: the case never ran
+                    if let Some(w) = self.shared.take() {
+                        w.kill();
+                    }
+                    self.shared = Some(spawn_worker(self.core, &[], false));
+                    r = self.shared.as_mut().unwrap().run(case, timeout);
+                }
+                let worker_exits = match &r {
+                    Err(_) => true,
+                    Ok(res) => matches!(&res.verdict, Verdict::Violation { class, .. } if class == "deadlock")
+                        || matches!(&res.verdict, Verdict::Inconclusive(w) if w == "step-limit")
+                        || matches!(&res.verdict, Verdict::HarnessError(w) if w.contains("stalled")),
+                };
+                if worker_exits {
                     if let Some(w) = self.shared.take() {
                         w.kill();
                     }
